@@ -120,3 +120,42 @@ Example ex_float_unit :
   exists u : binary_float 53 1024, f_unit (2 ^ 64 - 1) = B2SF u /\ is_finite u = true
     /\ B2R u = (IZR ((2 ^ 64 - 1) / 2 ^ 11) * / IZR (2 ^ 53))%R /\ (0 <= B2R u < 1)%R.
 Proof. apply c14_float_unit_in_0_1. lia. Qed.
+
+(** the correspondence corollary on concrete cases of several constructors: each is in scope and agrees
+    with the model (by computation), so it satisfies the specification by the theorem *)
+Definition ex_corr_cases : list case :=
+  [ CInt true 8 (FRange (-128) 127) [(254, Some 126); (0, Some (-128))];
+    CInt false 8 (FRange 3 3) [(7, None)];
+    CReach true 8 (FIncl (-1) 1) [Some (-1); Some 0; Some 1];
+    CReach true 8 FFull (map (fun k => Some (cast true 8 (Z.of_nat k))) (seq 0 256));
+    CFloat 0 4607182418800017408 (2 ^ 64 - 1) (Some 4607182418800017407);
+    CFloat 0 0 5 None;
+    CRaw 42 [10481999408619181148; 4159066172747877833];
+    CStream false 32 (FRange 0 4) 42 12 (Some [0; 1; 2; 1; 1; 1; 1; 3; 1; 3; 2; 3]);
+    CStream false 8 (FRange 3 3) 1 2 None;
+    CCopy 42 1 [4159066172747877833] [4159066172747877833];
+    CShufS [5; 5; 5] [10; 20; 30; 40] (Some [10; 40; 30; 20]);
+    CShufS [5] [10; 20; 30; 40] None;
+    CShufR 3 [(0, [0; 1; 2]); (4, [0; 2; 1])];
+    CShufAll 3 [(0, [0; 1; 2]); (4, [0; 2; 1]); (2, [1; 0; 2]); (1, [1; 2; 0]); (7, [2; 0; 1]); (6, [2; 1; 0])] ].
+Example ex_corr_hyps : forallb in_scope ex_corr_cases = true /\ forallb model_check ex_corr_cases = true.
+Proof. split; vm_compute; reflexivity. Qed.
+Example ex_corr_spec : forall c, In c ex_corr_cases -> spec_check c = true.
+Proof.
+  destruct ex_corr_hyps as [Hs Hm]. rewrite forallb_forall in Hs, Hm.
+  intros c Hc. apply c14_model_check_spec_check; auto.
+Qed.
+(** a stream of 64 draws: the aperiodicity test is the hypothesis kept in [in_scope] *)
+Example ex_corr_stream64 :
+  match stream false 32 (FRange 0 4) 42 64 with
+  | Some l => in_scope (CStream false 32 (FRange 0 4) 42 64 (Some l)) = true
+              /\ spec_check (CStream false 32 (FRange 0 4) 42 64 (Some l)) = true
+  | None => False
+  end.
+Proof.
+  destruct (stream false 32 (FRange 0 4) 42 64) as [l|] eqn:E; [|vm_compute in E; discriminate].
+  assert (Hs : in_scope (CStream false 32 (FRange 0 4) 42 64 (Some l)) = true)
+    by (vm_compute in E; injection E as <-; vm_compute; reflexivity).
+  split; [exact Hs|]. apply c14_model_check_spec_check; [exact Hs|].
+  cbn [model_check]. change (N.to_nat 64) with 64%nat. rewrite E. cbn [Batch.oeqb]. apply ProofsCorr.lzeqb_refl.
+Qed.
